@@ -13,7 +13,10 @@ Leaves == {Leaf(kd, ins, <<U>>) : kd \in Kinds, ins \in {<<X, T>>, <<T, X>>, <<X
 Leaves4 == {Leaf(kd, <<K, X, T, Z>>, <<U>>) : kd \in {"fcn", "qres"}} \cup {Leaf(kd, <<X, T>>, <<U>>) : kd \in {"polyres", "polyres3"}}
            \cup {Parm(<<Leaf("fcn", <<X, K, Z>>, <<U>>), Leaf("fcn", <<Z, T, X>>, <<V>>)>>)}
 Leaves1 == {Leaf(kd, <<X>>, <<U>>) : kd \in Kinds} \cup {Leaf("fcn", <<T>>, <<V>>)}          \* one input variable
-Models == Leaves \cup Leaves4 \cup Leaves1
+\* the library's own activation functions (relu^n with different n in one network, adaptive, sinus)
+LeavesA == {Leaf(kd, <<X, T>>, <<U>>) : kd \in {"fcn_relun", "fcn_adaptive", "fcn_sinus"}}
+           \cup {Seqm(<<Leaf("fcn_relun", <<X, T>>, <<W>>), Leaf("fcn_adaptive", <<W>>, <<U>>)>>)}
+Models == Leaves \cup Leaves4 \cup Leaves1 \cup LeavesA
     \cup {Seqm(<<Leaf("norm", <<X>>, <<X>>), Leaf(kd, <<X>>, <<U>>)>>) : kd \in {"fcn", "harmonic"}}
     \cup {Seqm(<<Leaf(k1, <<X, T>>, <<W>>), Leaf(k2, <<W>>, <<U>>)>>) : k1 \in {"fcn", "qres"}, k2 \in {"fcn", "deepritz", "poly"}}
     \cup {Parm(<<Leaf(k1, <<X, T>>, <<U>>), Leaf(k2, <<T, K>>, <<V>>)>>) : k1 \in {"fcn", "qres", "poly"}, k2 \in {"fcn", "harmonic"}}
